@@ -505,6 +505,49 @@ class AgentSchedulingComponent(rpu.AgentComponent):
     #
     # NOTE: any scheduler implementation which uses a different nodelist
     #       structure MUST overload this method.
+    #
+    def _check_slots(self, slots):
+        '''
+        Check slots which were provided by the application: raise if they
+        refer to resources this pilot does not offer, return `None` if some of
+        the resources are currently in use, and return the slots otherwise.
+        '''
+
+        lfs = defaultdict(int)
+        mem = defaultdict(int)
+
+        for slot in rpu.convert_slots_to_new(slots):
+
+            node = None
+            for node in self.nodes:
+                if node['index'] == slot['node_index']:
+                    break
+            else:
+                raise ValueError('slot on unknown node %s' % slot['node_index'])
+
+            idx = node['index']
+            for rtype in ['cores', 'gpus']:
+                for ro in slot[rtype]:
+                    if not 0 <= ro['index'] < len(node[rtype]):
+                        raise ValueError('slot on unknown %s' % rtype)
+                    if node[rtype][ro['index']] is rpc.DOWN:
+                        raise ValueError('slot on blocked %s' % rtype)
+                    if node[rtype][ro['index']] != rpc.FREE:
+                        return None
+
+            lfs[idx] += slot['lfs'] or 0
+            mem[idx] += slot['mem'] or 0
+
+            if lfs[idx] > (node['lfs'] or 0) or mem[idx] > (node['mem'] or 0):
+                return None
+
+        return slots
+
+
+    # --------------------------------------------------------------------------
+    #
+    # NOTE: any scheduler implementation which uses a different nodelist
+    #       structure MUST overload this method.
     def slot_status(self, msg=None, uid=None):
         '''
         Returns a multi-line string corresponding to the status of the node list
@@ -977,16 +1020,9 @@ class AgentSchedulingComponent(rpu.AgentComponent):
                 # side scheduler), and we honor that decision.  We though will
                 # mark the respective resources as being used, to avoid other
                 # tasks being scheduled onto the same set of resources.
-                if td.get('slots'):
-
-                    task['slots']     = td['slots']
-                    task['partition'] = td['partition']
-                    task['resources'] = {'cpu': td['ranks'] * td['cores_per_rank'],
-                                         'gpu': td['ranks'] * td['gpus_per_rank']}
-                    self.advance(task, rps.AGENT_EXECUTING_PENDING,
-                                 publish=True, push=True, fwd=True)
-                    continue
-
+                # Those tasks take the same path as all others: the
+                # allocation attempt below checks that the requested resources
+                # are usable and free, and the task waits otherwise.
 
                 # either we can place the task straight away, or we have to
                 # put it in the wait pool.
@@ -1154,7 +1190,12 @@ class AgentSchedulingComponent(rpu.AgentComponent):
           # td  = task['description']
 
           # self._prof.prof('schedule_try', uid=uid)
-            slots, partition = self.schedule_task(task)
+            if task['description'].get('slots'):
+                # placement was decided by the application
+                slots     = self._check_slots(task['description']['slots'])
+                partition = task['description'].get('partition')
+            else:
+                slots, partition = self.schedule_task(task)
             if not slots:
 
                 # schedule failure
